@@ -13,8 +13,10 @@ def run_scenarios(res, specs, tier, seed, relevant, label_nontrivial="futex_slee
     agg = {}
     other = []
     samples = []
-    for scen, env, nq, nt in specs:
-        exe, err = vrt_runner.build(scen)
+    for spec in specs:
+        scen, env, nq, nt = spec[:4]
+        flavour = spec[4] if len(spec) > 4 else None
+        exe, err = vrt_runner.build(scen, flavour=flavour)
         if exe is None:
             res["broken"].append({"what": "harness build failed (%s): the code under test does not compile against the runtime" % scen, "detail": err})
             continue
@@ -28,13 +30,13 @@ def run_scenarios(res, specs, tier, seed, relevant, label_nontrivial="futex_slee
         for k, v in a2.items():
             agg["%s.%s" % (scen, k)] = agg.get("%s.%s" % (scen, k), 0) + v
         if rs:
-            samples.append({"scenario": scen, "env": env, "seed": rs[0]["seed"], "stats": rs[0].get("stats")})
+            samples.append({"scenario": scen, "env": env, "semaphore": flavour or "counting", "seed": rs[0]["seed"], "stats": rs[0].get("stats")})
         seen = set()
         for f in fails:
             if f["prop"] in seen:
                 continue
             seen.add(f["prop"])
-            item = {"scenario": scen, "env": env, "seed": f["seed"], "oracle": f["prop"], "why": f["msg"],
+            item = {"scenario": scen, "env": env, "semaphore": flavour or "counting", "seed": f["seed"], "oracle": f["prop"], "why": f["msg"],
                     "trace_tail": f.get("tail", []), "key": "%s:%s" % (scen, f["prop"])}
             if f["prop"] in relevant:
                 res["violations"].append(item)
